@@ -2,7 +2,10 @@ TECH = "contract-based deductive verification: VCs generated from the real ast, 
 CHECKS = {
  "C04": {"level": "proof", "technique": TECH,
          "text": "base64 / base64offset modify() are proved, for every payload, to return exactly the payload-determined sextet window of RFC 4648 (lemmas: window maximal and inside payload bits, aligned occurrences share the sextets); rejecting only for wildcard payloads",
-         "note": "assumed: RFC 4648 length/sextet layout of base64.b64encode; SigmaString.__bytes__/__len__/contains_special contracts (listed in evidence until discharged); pyvc encoding of Python semantics; z3"},
+         "note": "assumed: RFC 4648 length/sextet layout of base64.b64encode; strict UTF-8/UTF-16 codecs; SigmaString.__len__/contains_special summaries; bounded stand-in (payloads <= 3/4 symbols) reported separately; known finding: utf16 BOM; pyvc encoding of Python semantics; z3"},
+ "C13": {"level": "proof", "technique": TECH,
+         "text": "the four gates of ProcessingItem (rule / detection item / field name / field-in-value) are proved equal to the specification gate for every condition list or expression, linking, negation flag and condition result (conditions abstract); ProcessingPipeline.apply is proved to re-create every per-rule tracking field before the first item runs",
+         "note": "assumed: class invariant established by _check_conditions; built-in condition classes' own match() meaning and the pyparsing expression grammar are outside the proved part; pyvc encoding; z3"},
 }
 NOT_APPLICABLE = {
  "C20": "quantifies over interpreter processes, PYTHONHASHSEED values and draws of the random module for the whole load+convert output: no contract on a single call can express 'another process'; deciding it needs repeated subprocess execution, a different technique family (DESIGN.md section 11)",
